@@ -237,6 +237,61 @@ def refusal_kills(P, R):
     R.floor('C02.MPT.3', 1)
 
 
+def release_recognised(P, R, cl, rule='C02.GRD.6'):
+    """The awaiting bit of a service is given back only for a reply the handler understood: on every path to the
+    release some test of the reply (its absence, a keyword, a leading character) was taken in the affirmative.  A path
+    on which every test of the reply failed is the "unexpected text" path; releasing there books garbage as the
+    service's final answer and lets the gate open."""
+    from ..model import is_field as _isf
+    n = 0
+    for f in cl.values():
+        rel_sites = [t for t in f.stores() if t.ev['k'] == 'store' and _isf(t.ev['lhs'], holds.MASK) and t.ev.get('op') == '&=']
+        if not rel_sites or len(f.params) < 3:
+            continue
+        replyp = f.params[2]
+        derived = {replyp}
+        changed = True
+        while changed:
+            changed = False
+            for s in f.sites():
+                ev = s.ev
+                v = ev.get('var') if ev['k'] == 'decl' else (ev['lhs']['name'] if ev['k'] == 'store' and is_var(ev.get('lhs')) and ev.get('op') == '=' else None)
+                val = ev.get('init') if ev['k'] == 'decl' else ev.get('rhs')
+                if v and v not in derived and isinstance(val, dict) and any(x.get('k') == 'var' and x.get('name') in derived for x in walk(val)):
+                    derived.add(v)
+                    changed = True
+
+        def about(e):
+            return isinstance(e, dict) and any(x.get('k') == 'var' and x.get('name') in derived for x in walk(e))
+        tests = 0
+        for b in f.blocks:
+            c = f.term_cond(b)
+            if c is not None and about(c):
+                tests += 1
+        if tests < 2:
+            R.note('%s: %s does not test its reply text itself (%d tests); rule not applied' % (rule, f.name, tests))
+            continue
+
+        def on_edge(st, e):
+            if st or e.cond is None:
+                return st
+            if e.label == 'case':
+                return about(e.cond)
+            if e.label == 'default':
+                return st
+            r = e.rel()
+            if r and about(r[0]) and r[1] == '==':
+                return True
+            return st
+        before, _, sin, bout = f.forward(False, lambda st, s: st, on_edge)
+        for t in rel_sites:
+            sts = before.get(t.key, set())
+            n += 1
+            R.ob(rule, False not in sts, t, 'the awaiting bit is released only on paths on which the reply was recognised (its absence or one of the keywords)',
+                 key='release-recognised')
+    R.floor(rule, 1)
+
+
 def run(P, R, tier):
     gate_guard(P, R)
     required_mask(P, R)
@@ -256,4 +311,5 @@ def run(P, R, tier):
     cl = c04.lookup_discipline(P, R4)
     c04.effects_guarded(P, R4, cl)
     c04.lookup_skips(P, R4, cl)
+    release_recognised(P, R, cl)
     return EXPLANATION, ASSUMPTIONS
